@@ -706,6 +706,84 @@ distinct (key class, length class) stream cells",
                 rep.cell(&[7, 7]);
             }
         }
+        // headers whose size field is tiny (0..7: smaller than the opcode field that it is said to include) or huge, through
+        // the typed helpers and the Read wrappers in both roles: any size and opcode is a header
+        if sh % 4 == 1 {
+            let k: [u8; 40] = rng.arr();
+            let mkey = (kind_ref.model_key)(&k);
+            if let Ok((mut client, mut server)) = guard(|| (kind_ref.pair)(k)) {
+                let mut m_c = ModelAdd::new(&mkey);
+                let mut m_s = ModelAdd::new(&mkey);
+                let mut okay = true;
+                for size in [0u16, 1, 2, 3, 4, 5, 6, 7, 0xFFFF, 0x7FFF, 0x8000] {
+                    for op in [0u32, 1, 0x1DC, 0xFFFF, 0x1_0000, 0xFFFF_FFFF] {
+                        for route in 0..2 {
+                            if !okay {
+                                break;
+                            }
+                            // client header: 6 bytes client -> server
+                            let s2 = size.to_be_bytes();
+                            let o4 = op.to_le_bytes();
+                            let plain6 = [s2[0], s2[1], o4[0], o4[1], o4[2], o4[3]];
+                            let mut want = plain6;
+                            m_c.enc(&mut want);
+                            let r = guard(|| {
+                                let mut w = plain6;
+                                client.enc_typed(&mut w);
+                                let mut back = w;
+                                if route == 0 {
+                                    server.dec_typed(&mut back);
+                                } else {
+                                    server.dec_io(&mut back, 0b10101, true);
+                                }
+                                (w, back)
+                            });
+                            rep.ev(1);
+                            match r {
+                                Ok((w, back)) if w == want && back == plain6 => {}
+                                Ok(_) => {
+                                    rep.violation(&format!("{}:tiny_or_huge_header:client_header", kind_ref.prop), format!("client header size={} opcode={:#x} through the typed helpers differs from the recurrence or is not recovered", size, op), format!("stream {} 0 6", hex(&k)));
+                                    okay = false;
+                                }
+                                Err(e) => {
+                                    rep.violation(&format!("{}:panic:typed_header", kind_ref.prop), format!("client header size={} opcode={:#x}: {}", size, op, e), format!("stream {} 0 6", hex(&k)));
+                                    okay = false;
+                                }
+                            }
+                            // server header: 4 bytes server -> client
+                            let plain4 = [s2[0], s2[1], o4[0], o4[1]];
+                            let mut want4 = plain4;
+                            m_s.enc(&mut want4);
+                            let r = guard(|| {
+                                let mut w = plain4;
+                                server.enc_typed(&mut w);
+                                let mut back = w;
+                                if route == 0 {
+                                    client.dec_typed(&mut back);
+                                } else {
+                                    client.dec_io(&mut back, 0b101, false);
+                                }
+                                (w, back)
+                            });
+                            rep.ev(1);
+                            match r {
+                                Ok((w, back)) if w == want4 && back == plain4 => {}
+                                Ok(_) => {
+                                    rep.violation(&format!("{}:tiny_or_huge_header:server_header", kind_ref.prop), format!("server header size={} opcode={:#x} through the typed helpers differs from the recurrence or is not recovered", size, op), format!("stream {} 0 4", hex(&k)));
+                                    okay = false;
+                                }
+                                Err(e) => {
+                                    rep.violation(&format!("{}:panic:typed_header", kind_ref.prop), format!("server header size={} opcode={:#x}: {}", size, op, e), format!("stream {} 0 4", hex(&k)));
+                                    okay = false;
+                                }
+                            }
+                        }
+                    }
+                }
+                rep.count("tiny_and_huge_headers_through_typed_helpers", 11 * 6 * 2 * 2);
+                rep.cell(&[10, 10]);
+            }
+        }
         // a handful of session keys come back again and again on this thread, in changing order (reconnecting players):
         // every new connection is keyed by its own session key, whatever was connected before
         if nkeys >= 100 {
